@@ -114,6 +114,7 @@ pub fn push_call_frame(
     src_ptr: u32,
     instr_ptr: u32,
     closure: *mut CaoLangClosure,
+    closure_object: *mut CaoLangObject,
     runtime_data: &mut RuntimeData,
 ) -> ExecutionResult {
     // remember the location after this jump
@@ -135,6 +136,7 @@ pub fn push_call_frame(
                 .checked_sub(arity)
                 .ok_or(ExecutionErrorPayload::MissingArgument)? as u32,
             closure,
+            closure_object,
         })
         .map_err(|_| ExecutionErrorPayload::CallStackOverflow)?;
     Ok(())
@@ -154,6 +156,7 @@ pub fn instr_call_function<T>(
     let arity;
     let label;
     let mut closure = std::ptr::null_mut();
+    let mut closure_object = std::ptr::null_mut();
     unsafe {
         match &o.as_ref().body {
             CaoLangObjectBody::Function(f) => {
@@ -164,6 +167,7 @@ pub fn instr_call_function<T>(
                 arity = c.function.arity;
                 label = c.function.handle;
                 closure = (c as *const CaoLangClosure).cast_mut();
+                closure_object = o.as_ptr();
             }
             CaoLangObjectBody::NativeFunction(f) => {
                 return call_native(vm, f.handle);
@@ -182,6 +186,7 @@ pub fn instr_call_function<T>(
         src_ptr as u32,
         *instr_ptr as u32,
         closure,
+        closure_object,
         &mut vm.runtime_data,
     )?;
 
